@@ -158,3 +158,62 @@ def vars_mentioned_not_selected(case):
     sel_vars = {s if isinstance(s, int) else s[1] for s in case["sel"]}
     ment = C.mentioned(case["cond"]) if case["cond"] is not None else set()
     return sorted(ment - sel_vars)
+
+
+# ------------------------------------------------------------------------------------------------ scale
+SCALE_FLAVOURS = ["single_big", "join_big", "selfjoin_big", "triangle", "wide_join", "many_vars"]
+
+
+def gen_scale_case(rng, flavour=None):
+    """Queries whose SIZE is the point: domains of 40-300 objects, joins with more than a thousand candidate rows, self-joins
+    (both variables over the same objects), 5-6 variables, 6-9 operands - where an index, a bounded cache, a batch size or a
+    hash-join threshold starts to matter.  Same vocabulary and oracle as the small cases."""
+    flavour = flavour or rng.choice(SCALE_FLAVOURS)
+    A = lambda i, f: ["v", i, [["a", f]]]
+    cmp_ = lambda op, l, r: ["cmp", op, l, r]
+    op = lambda: rng.choice(["<", "<=", ">", ">=", "!=", "=="])
+    if flavour == "single_big":
+        world = D.random_world(rng, np_=(80, 300), nq=(1, 2), hi=9, rich=False)
+        c1 = rng.choice([cmp_(op(), A(0, "a"), A(0, "b")), cmp_(op(), A(0, "a"), ["lit", rng.randint(2, 7)])])
+        c2 = rng.choice([cmp_(op(), A(0, "b"), A(0, "a")), cmp_(op(), A(0, "b"), ["lit", rng.randint(2, 7)]),
+                         ["in", A(0, "k1000"), ["big", 3, 3 + rng.randint(66, 80)]]])
+        cond = [rng.choice(["and", "and", "or"]), c1, c2]
+        if rng.random() < 0.3:
+            cond = ["not", cond]
+        return {"world": world, "kinds": ["P"], "cond": cond, "sel": [0], "scale": flavour}
+    if flavour in ("join_big", "selfjoin_big"):
+        n = (35, 50)
+        world = D.random_world(rng, np_=n, nq=n if flavour == "join_big" else (1, 2), hi=rng.choice([5, 6, 8]), rich=False)
+        kinds = ["P", "Q"] if flavour == "join_big" else ["P", "P"]
+        j1 = cmp_(rng.choice(["==", "==", "<=", "!="]), A(0, "a"), A(1, "a"))
+        j2 = cmp_(rng.choice(["!=", "<", "==", ">="]), A(0, "b"), A(1, "b"))
+        cond = rng.choice([["and", j1, j2], ["and", j2, j1], ["or", ["and", j1, j2], cmp_(">", A(0, "b"), A(1, "a"))],
+                           ["not", ["and", j2, j1]], ["and", j1, cmp_(op(), A(1, "b"), ["lit", 3])]])
+        return {"world": world, "kinds": kinds, "cond": cond, "sel": rng.choice([[0, 1], [1, 0], [0, 1]]), "scale": flavour}
+    if flavour == "triangle":
+        world = D.random_world(rng, np_=(40, 48), nq=(3, 5), hi=6, rich=False)
+        cond = ["and", cmp_("==", A(0, "a"), A(1, "a")), cmp_("==", A(1, "b"), A(2, "b")), cmp_(rng.choice(["==", "<="]), A(0, "b"), A(2, "a"))]
+        return {"world": world, "kinds": ["P", "Q", "P"], "cond": cond, "sel": [0, 1, 2], "scale": flavour}
+    if flavour == "wide_join":
+        # and_/or_ with 6-9 operands over two variables
+        world = D.random_world(rng, np_=(4, 7), nq=(4, 7), hi=5, rich=False)
+        k = rng.randint(6, 9)
+        parts = [cmp_(op(), A(rng.randrange(2), rng.choice("ab")), rng.choice([A(rng.randrange(2), rng.choice("ab")), ["lit", rng.randint(1, 5)]]))
+                 for _ in range(k)]
+        conj = rng.random() < 0.5
+        if conj:    # (keep a wide conjunction satisfiable: mostly weak comparisons)
+            parts = [cmp_(rng.choice(["<=", ">=", "!="]), p[2], p[3]) for p in parts]
+        return {"world": world, "kinds": ["P", "Q"], "cond": ["and" if conj else "or"] + parts, "sel": [0, 1], "scale": flavour}
+    # many_vars: 5-6 variables over small domains, chained joins plus a disjunction
+    nv = rng.randint(5, 6)
+    world = D.random_world(rng, np_=(2, 3), nq=(2, 3), hi=3, rich=False)
+    kinds = [rng.choice("PQ") for _ in range(nv)]
+    parts = [cmp_(rng.choice(["<=", "==", "!=", ">="]), A(i, rng.choice("ab")), A(i + 1, rng.choice("ab"))) for i in range(nv - 1)]
+    if rng.random() < 0.6:
+        i, j = rng.sample(range(nv), 2)
+        parts.append(["or", cmp_(op(), A(i, "a"), A(j, "b")), cmp_(op(), A(j, "a"), ["lit", 2])])
+    rng.shuffle(parts)
+    sel = list(range(nv))
+    if rng.random() < 0.4:
+        sel = rng.sample(sel, rng.randint(2, nv - 1))
+    return {"world": world, "kinds": kinds, "cond": ["and"] + parts, "sel": sel, "scale": flavour}
